@@ -5,6 +5,7 @@
 package fakeclock
 
 import (
+	"bytes"
 	"context"
 	"encoding/json"
 	"errors"
@@ -15,8 +16,10 @@ import (
 	"testing"
 	"testing/synctest"
 	"time"
+	"unsafe"
 
 	"github.com/ozanh/ugo"
+	"github.com/ozanh/ugo/encoder"
 	ugostrings "github.com/ozanh/ugo/stdlib/strings"
 	ugotime "github.com/ozanh/ugo/stdlib/time"
 	"verif/sim"
@@ -44,6 +47,9 @@ type result struct {
 	AbortAtMs float64 `json:"abort_or_deadline_at_ms"`
 	ReturnMs  float64 `json:"returned_at_ms"`
 	Err       string  `json:"error"`
+	Decoded   bool    `json:"bytecode_decoded,omitempty"`
+	// AtInstruction > 0: Abort was called at that instruction boundary of the run
+	AtInstruction int `json:"abort_at_instruction,omitempty"`
 	Violation string  `json:"violation,omitempty"`
 }
 
@@ -60,7 +66,16 @@ func runOne(t *testing.T, seed int64, index int) (res result) {
 	// never a multiple of the 10 ms poll period: no two timers tie
 	at := time.Duration(tape.Draw(300))*10*time.Millisecond + time.Duration(1+tape.Draw(9))*time.Millisecond + time.Duration(tape.Draw(1000))*time.Microsecond
 	pooled := tape.Bool(1, 2)
-	res = result{Index: index, Shape: sh.name, AbortAtMs: float64(at) / 1e6}
+	// VM shapes: a third run Bytecode that went through the encoder; a third are aborted by the host from inside the
+	// interpreter's own goroutine at the k-th instruction boundary (after the loop looked at the abort flag, before the
+	// instruction - possibly the call of time.Sleep - executes) instead of at an instant of simulated time
+	decoded := tape.Bool(1, 3)
+	atInstruction := tape.Bool(1, 3)
+	k := 1 + tape.Draw(24)
+	res = result{Index: index, Shape: sh.name, AbortAtMs: float64(at) / 1e6, Decoded: decoded && !sh.eval}
+	if atInstruction && !sh.eval {
+		res.AtInstruction = k
+	}
 	defer func() {
 		if r := recover(); r != nil {
 			res.Violation = fmt.Sprintf("bubble ended abnormally (deadlock or panic): %v", r)
@@ -95,17 +110,55 @@ func runOne(t *testing.T, seed int64, index int) (res result) {
 			if cerr != nil {
 				t.Fatalf("compile: %v", cerr)
 			}
+			if decoded {
+				var buf bytes.Buffer
+				if eerr := encoder.EncodeBytecodeTo(bc, &buf); eerr != nil {
+					t.Fatalf("encode: %v", eerr)
+				}
+				if bc, cerr = encoder.DecodeBytecodeFrom(&buf, moduleMap()); cerr != nil {
+					t.Fatalf("decode: %v", cerr)
+				}
+			}
 			vm := ugo.NewVM(bc)
-			done := make(chan struct{})
-			go func() {
-				defer close(done)
+			after := 0
+			if atInstruction {
+				cnt, fired := 0, false
+				ugo.VerifHook = func(p int, _ unsafe.Pointer) {
+					if p != ugo.VerifLoop {
+						return
+					}
+					if fired {
+						after++
+					}
+					if cnt++; cnt == k {
+						fired = true
+						at = time.Since(start)
+						vm.Abort()
+					}
+				}
 				_, err = vm.Run(w.Globals)
+				ugo.VerifHook = nil
 				returned = time.Since(start)
-			}()
-			time.Sleep(at)
-			vm.Abort()
-			<-done
-			if !errors.Is(err, ugo.ErrVMAborted) {
+				res.AbortAtMs = float64(at) / 1e6
+				if !fired {
+					// the script has fewer instruction boundaries before it sleeps for good: nothing was aborted
+					res.AtInstruction = -k
+					res.ReturnMs = float64(returned) / 1e6
+					return
+				}
+			} else {
+				done := make(chan struct{})
+				go func() {
+					defer close(done)
+					_, err = vm.Run(w.Globals)
+					returned = time.Since(start)
+				}()
+				time.Sleep(at)
+				vm.Abort()
+				<-done
+			}
+			if !errors.Is(err, ugo.ErrVMAborted) && !(atInstruction && err == nil && after <= 256) {
+				// (a script that had at most 256 instructions left when Abort was called may complete)
 				res.Violation = fmt.Sprintf("Run returned %v instead of ErrVMAborted", err)
 			}
 			bc2, _ := ugo.Compile([]byte("return 7"), ugo.CompilerOptions{})
@@ -148,12 +201,23 @@ func TestFakeClock(t *testing.T) {
 	var simTime float64
 	var samples []result
 	perShape := map[string]int{}
+	modes := map[string]int{}
 	violations := 0
 	wall := time.Now()
 	for i := first; i < last; i++ {
 		r := runOne(t, seed, i)
 		simTime += r.ReturnMs
 		perShape[r.Shape]++
+		if r.Decoded {
+			modes["bytecode-decoded"]++
+		}
+		if r.AtInstruction > 0 {
+			modes["abort-at-instruction-boundary"]++
+		} else if r.AtInstruction < 0 {
+			modes["instruction-boundary-not-reached(no abort)"]++
+		} else {
+			modes["abort-or-deadline-at-simulated-instant"]++
+		}
 		if len(samples) < 3 {
 			samples = append(samples, r)
 		}
@@ -169,7 +233,7 @@ func TestFakeClock(t *testing.T) {
 			}
 		}
 	}
-	sum := map[string]any{"bubbles": last - first, "violations": violations, "sim_time_ms": simTime, "per_shape": perShape, "samples": samples, "wall_s": time.Since(wall).Seconds(), "seed": seed}
+	sum := map[string]any{"bubbles": last - first, "violations": violations, "sim_time_ms": simTime, "per_shape": perShape, "modes": modes, "samples": samples, "wall_s": time.Since(wall).Seconds(), "seed": seed}
 	b, _ := json.MarshalIndent(sum, "", " ")
 	os.WriteFile(filepath.Join(outDir, "evidence", "C09-fakeclock.partial.json"), b, 0o644)
 	fmt.Printf("fakeclock arm: %d bubbles, %.1f s of simulated time, %d violations\n", last-first, simTime/1000, violations)
